@@ -618,7 +618,49 @@ def r2_8(repo: Repo) -> RuleResult:
     return rr
 
 
-RULES = [r2_1, r2_2, r2_3, r2_4, r2_5, r2_6, r2_7, r2_8]
+CFC = "vectorizers/transformers/count_feature_compression.py"
+
+
+def r2_9(repo: Repo) -> RuleResult:
+    """CountFeatureCompressionTransformer: fit_transform returns u * c and transform returns (X' v^T) / c.  With the
+    factorisation X' = u diag(s) v the two agree on the training data exactly when c * c = s, i.e. c = sqrt(s) - any
+    other power of the singular values gives u s^p against u s^(1 - p)."""
+    rr = RuleResult("R2.9", "the SVD scaling stored by fit_transform is the square root of the singular values (u * c on one side, / c on the other)", floor=1)
+    c = repo.module(CFC).classes.get("CountFeatureCompressionTransformer")
+    if c is None:
+        raise AnalysisError("R2.9: CountFeatureCompressionTransformer not found")
+    ft, tr = repo.resolve_method(c, "fit_transform"), repo.resolve_method(c, "transform")
+    A = "component_scaling_"
+    mul = [n for n in walk_no_nested(ft.node) if isinstance(n, ast.BinOp) and isinstance(n.op, ast.Mult) and any(is_self_attr(x, A) for x in (n.left, n.right))]
+    div = [n for n in walk_no_nested(tr.node) if isinstance(n, ast.BinOp) and isinstance(n.op, ast.Div) and is_self_attr(n.right, A)]
+    if not mul or not div:
+        raise AnalysisError("R2.9: the `u * scaling` / `... / scaling` pair of CountFeatureCompressionTransformer not recognised")
+    svals = set()
+    for n in walk_no_nested(ft.node):
+        if isinstance(n, ast.Assign) and isinstance(n.targets[0], ast.Tuple) and len(n.targets[0].elts) == 3 and isinstance(n.value, ast.Call) \
+                and ("svd" in norm(n.value.func)):
+            svals.add(norm(n.targets[0].elts[1]))
+    if not svals:
+        raise AnalysisError("R2.9: the (u, s, v) = ...svd... unpacking of fit_transform not recognised")
+    for n in walk_no_nested(ft.node):
+        if isinstance(n, ast.Assign) and any(is_self_attr(t, A) for t in n.targets):
+            v = n.value
+            if isinstance(v, ast.Call) and norm(v.func) in ("np.ones", "numpy.ones"):
+                rr.ok(ft, "self.%s = %s" % (A, short(v, 40)), "no compression: scaling by ones on both sides", n.lineno, nontrivial=False)
+                continue
+            is_sqrt = (isinstance(v, ast.Call) and repo.canonical(ft.module, v.func) == "numpy.sqrt" and v.args and norm(v.args[0]) in svals) \
+                or (isinstance(v, ast.Call) and repo.canonical(ft.module, v.func) == "numpy.power" and len(v.args) == 2 and norm(v.args[0]) in svals and norm(v.args[1]) == "0.5") \
+                or (isinstance(v, ast.BinOp) and isinstance(v.op, ast.Pow) and norm(v.left) in svals and norm(v.right) == "0.5")
+            construct = "self.%s = %s" % (A, short(v, 40))
+            if is_sqrt:
+                rr.ok(ft, construct, "c = sqrt(s): u * c == (u s) / c", n.lineno)
+            else:
+                rr.bad(ft, construct, "fit_transform returns u * c and transform divides by c, which agree only for c = sqrt(s); with c = `%s` the training "
+                       "data come out as u s^p from fit_transform and u s^(1-p) from transform" % norm(v), n.lineno)
+    return rr
+
+
+RULES = [r2_1, r2_2, r2_3, r2_4, r2_5, r2_6, r2_7, r2_8, r2_9]
 
 CLAIM = (
     "R2.1 every normal exit of every estimator's fit is `return self` (CFG); R2.2 fit/fit_transform are one pipeline "
@@ -626,7 +668,7 @@ CLAIM = (
     "arguments and attribute write sets); R2.3 every repository function called from both the fit path and the "
     "transform path of a class gets the same configuration arguments (presence and closed-form equality of bound "
     "arguments, fitted state may replace configuration); R2.4 fit_transform may return its input unchanged only "
-    "where transform can as well; R2.5 sibling branches filling the same accumulator consume their source the same way; R2.6 library data transformations (normalize norm/axis, power exponents, scalings by fitted values) on the transform path also occur on the fit path; R2.7 definite assignment (CFG dataflow) on every fit / fit_transform path and the non-compiled helpers it reaches; R2.8 fit and transform copies of a look-up loop over the same fitted dictionaries are the same loop (alpha-renamed bodies)."
+    "where transform can as well; R2.5 sibling branches filling the same accumulator consume their source the same way; R2.6 library data transformations (normalize norm/axis, power exponents, scalings by fitted values) on the transform path also occur on the fit path; R2.7 definite assignment (CFG dataflow) on every fit / fit_transform path and the non-compiled helpers it reaches; R2.8 fit and transform copies of a look-up loop over the same fitted dictionaries are the same loop (alpha-renamed bodies); R2.9 CountFeatureCompressionTransformer stores sqrt(s) as the scaling it multiplies by in fit_transform and divides by in transform (the only power for which the two agree)."
 )
 NOT_DECIDED = (
     "numerical equality of SVD outputs (u*s vs X @ V^T) and that BPE's incremental training merges equal the "
